@@ -26,10 +26,10 @@ func init() {
 		Plan: func(tier string) Plan {
 			return Plan{Level: "exploration", NCases: pick(tier, 720, 60000), Batch: 10, CaseTimeout: 60,
 				Rule: "one case = one PRNG sequence of 20-200 steps on one engine (memkv / Badger / TiKV mock, each also behind the metrics wrapper with the real Prometheus client): " +
-					"batches of 1-4 ops from {put-if-absent, CAS, put, del, delete-current} on distinct keys incl. several conditions per batch and conditions on missing keys; Get; Del; DelCurrent; forward/backward/limited Iter with bounds on/between/outside keys and writes slipped in between creating and draining the iterator; every 5th case instead runs 8 concurrent readers (iterators with non-stored bounds, gets of missing keys) over an unchanging store, whose results must be exact, and another every 5th runs 6 concurrent conditional writers released together (put-if-absent on a fresh key: exactly one commits; compare-and-swap increments: counter == acknowledged successes). " +
+					"batches of 1-4 ops from {put-if-absent, CAS, put, del, delete-current} on distinct keys (every third case: possibly the same key twice, e.g. delete then a condition on it) incl. several conditions per batch and conditions on missing keys; Get; Del; DelCurrent; forward/backward/limited Iter with bounds on/between/outside keys and writes slipped in between creating and draining the iterator; every 5th case instead runs 8 concurrent readers (iterators with non-stored bounds, gets of missing keys) over an unchanging store, whose results must be exact, and another every 5th runs 6 concurrent conditional writers released together (put-if-absent on a fresh key: exactly one commits; compare-and-swap increments: counter == acknowledged successes). " +
 					"oracle = sorted-map reference in lock-step (all-or-nothing batches, failure <=> some condition false and then errors.Is(err, ErrCASFailed), iterator output = reference slice of the snapshot at creation, or a prefix of length >= limit). " +
 					"non-trivial = sequence with >=1 failed multi-op batch, >=1 backward and >=1 limited iteration and >=1 write slipped under an open iterator; distinct by (engine, step-kind/outcome vector)",
-				Assumptions: []string{"TTL argument is always 0", "ops of one batch touch distinct keys (the contract does not define same-key ordering)",
+				Assumptions: []string{"TTL argument is always 0", "in two thirds of the cases the ops of one batch touch distinct keys; in the others a batch may name a key twice and is judged by read-your-own-batch semantics (a condition sees what earlier operations of the same batch did), which the interface comment does not spell out but all three engines implement",
 					"a key rewritten with an identical value under an open iterator is not generated (delete-if-value-equal and delete-if-version-equal may differ there, both allowed)"},
 				MinConcl: pick(tier, 600, 50000)}
 		},
@@ -363,6 +363,8 @@ func runC11(c *harness.Case) {
 		return true
 	}
 
+	sameKeyOps := (c.Index/len(c11Engines))%3 == 1 // a third of the cases, on every engine: a batch may name a key twice (delete, then a condition on it, ...)
+	nSameKey := 0
 	steps := 20 + r.Intn(180)
 	for s := 0; s < steps; s++ {
 		switch x := r.Intn(100); {
@@ -382,10 +384,35 @@ func runC11(c *harness.Case) {
 			condOK := true
 			desc := "batch{"
 			var iters []storage.Iter
+			// keys already touched by this batch, as the batch itself has to see them (an engine's batch reads its own
+			// pending operations: memkv's cache, Badger's and TiKV's transaction buffers)
+			type ov struct {
+				val []byte
+				has bool
+			}
+			overlay := map[string]ov{}
+			lastKey := ""
+			batchReuses := false
 			for i := 0; i < nOps; i++ {
 				k := univ[perm[i]]
+				reuse := sameKeyOps && i > 0 && r.Intn(4) == 0
+				if reuse {
+					k = lastKey
+				}
+				lastKey = k
 				cur, has := ref.m[k]
-				switch y := r.Intn(10); {
+				if o, ok := overlay[k]; ok {
+					cur, has = o.val, o.has
+				}
+				y := r.Intn(10)
+				if reuse && y >= 9 {
+					y = 3 + r.Intn(3) // no delete-current on a key the batch has already changed: a condition instead
+				}
+				if reuse {
+					nSameKey++
+					batchReuses = true
+				}
+				switch {
 				case y < 3:
 					v := newVal()
 					adds = append(adds, func(b storage.BatchWrite) { b.PutIfNotExist([]byte(k), v, 0) })
@@ -394,6 +421,7 @@ func runC11(c *harness.Case) {
 						condOK = false
 					}
 					pends = append(pends, pend{key: k, val: v})
+					overlay[k] = ov{v, true}
 				case y < 6:
 					v := newVal()
 					old := cur
@@ -406,21 +434,25 @@ func runC11(c *harness.Case) {
 						condOK = false
 					}
 					pends = append(pends, pend{key: k, val: v})
+					overlay[k] = ov{v, true}
 				case y < 8:
 					v := newVal()
 					adds = append(adds, func(b storage.BatchWrite) { b.Put([]byte(k), v, 0) })
 					desc += fmt.Sprintf(" put(%q)", k)
 					pends = append(pends, pend{key: k, val: v})
+					overlay[k] = ov{v, true}
 				case y < 9:
 					adds = append(adds, func(b storage.BatchWrite) { b.Del([]byte(k)) })
 					desc += fmt.Sprintf(" del(%q)", k)
 					pends = append(pends, pend{key: k, del: true})
+					overlay[k] = ov{nil, false}
 				default:
 					if !has {
 						v := newVal()
 						adds = append(adds, func(b storage.BatchWrite) { b.Put([]byte(k), v, 0) })
 						desc += fmt.Sprintf(" put(%q)", k)
 						pends = append(pends, pend{key: k, val: v})
+						overlay[k] = ov{v, true}
 						break
 					}
 					it, ok := positioned(k)
@@ -445,13 +477,14 @@ func runC11(c *harness.Case) {
 					adds = append(adds, func(b storage.BatchWrite) { b.DelCurrent(it) })
 					desc += fmt.Sprintf(" delcur(%q,changed=%v)", k, changed)
 					pends = append(pends, pend{key: k, del: true})
+					overlay[k] = ov{nil, false}
 				}
 			}
 			b := kv.BeginBatchWrite()
 			for _, add := range adds {
 				add(b)
 			}
-			if strings.HasPrefix(eng.Kind, "tikv") && len(iters) == 0 && r.Intn(3) == 0 {
+			if strings.HasPrefix(eng.Kind, "tikv") && len(iters) == 0 && !batchReuses && r.Intn(3) == 0 {
 				// another writer commits to a key this batch writes unconditionally, between the batch's begin and its
 				// commit (only where a batch holds no engine lock while it is open): the batch is still all-or-nothing and
 				// comes after that write
@@ -674,6 +707,7 @@ func runC11(c *harness.Case) {
 	c.Stat("steps", int64(len(hist)))
 	c.Stat("failed_multi_op_batches", int64(nFailedMulti))
 	c.Stat("batches_overtaken_by_another_writer_between_begin_and_commit", int64(nInterloped))
+	c.Stat("operations_on_a_key_the_same_batch_had_already_touched", int64(nSameKey))
 	c.Stat("backward_iterations", int64(nBack))
 	c.Stat("limited_iterations", int64(nLim))
 	c.Stat("iterations_with_writes_slipped_under", int64(nSlip))
